@@ -17,8 +17,8 @@ func init() {
 	core.Register(&core.Check{
 		ID: "C23", Level: "other", Title: "EVM-family deposit proofs are sound and complete",
 		Technique: "sibling template: guard dominance + value-flow identity across the nine EVM-trie routers",
-		Explain: "Soundness half, as a sibling template over the EVM-trie routers (eth, bsc, heco, hsc, msc, pixiechain, polygon-bor, bytom; quorum through its own entry): every accepting return of verifyFrom*Tx is dominated by (i) the confirmation tests best >= height and best-height >= BlocksToWait-1, (ii) the canonical/confirmed header lookup for that height err==nil, (iii) len(StorageProofs)==1, (iv) verifyMerkleProof(proof, that header, sideChain.CCMCAddress) err==nil and non-nil, (v) checkProofResult(result, extra)==true, (vi) MakeTxParam.Deserialization(extra) err==nil, and the returned message is the object decoded from the submitted extra. In each verifyMerkleProof: proof address == registered contract address; account trie.VerifyProof against header.Root with key keccak(address); rlp(account{…,Storage: storageHash,…}) == proven account value; storage trie.VerifyProof against THAT SAME storageHash value; the value returned is the storage proof's result. In each checkProofResult: true only under bytes.Equal(leftpad32(rlp-decoded result), keccak256(value)) — an exact 32-byte comparison. All nine instantiations must produce the same obligation list (sibling diff). NOT decided: the completeness half ('exactly when'), and that the proven storage KEY is the message's slot (the code does not bind it; observation).",
-		Run: runC23,
+		Explain:   "Soundness half, as a sibling template over the EVM-trie routers (eth, bsc, heco, hsc, msc, pixiechain, polygon-bor, bytom; quorum through its own entry): every accepting return of verifyFrom*Tx is dominated by (i) the confirmation tests best >= height and best-height >= BlocksToWait-1, (ii) the canonical/confirmed header lookup for that height err==nil, (iii) len(StorageProofs)==1, (iv) verifyMerkleProof(proof, that header, sideChain.CCMCAddress) err==nil and non-nil, (v) checkProofResult(result, extra)==true, (vi) MakeTxParam.Deserialization(extra) err==nil, and the returned message is the object decoded from the submitted extra. In each verifyMerkleProof: proof address == registered contract address; account trie.VerifyProof against header.Root with key keccak(address); rlp(account{…,Storage: storageHash,…}) == proven account value; storage trie.VerifyProof against THAT SAME storageHash value; the value returned is the storage proof's result. In each checkProofResult: true only under bytes.Equal(leftpad32(rlp-decoded result), keccak256(value)) — an exact 32-byte comparison. All nine instantiations must produce the same obligation list (sibling diff). NOT decided: the completeness half ('exactly when'), and that the proven storage KEY is the message's slot (the code does not bind it; observation).",
+		Run:       runC23,
 	})
 }
 
@@ -148,7 +148,7 @@ func checkVerifyFrom(c *core.Ctx, fn, vmp, cpr *ssa.Function, quorum bool) {
 	if !quorum {
 		// best height value: converted result of a current-height getter
 		isBest := func(v ssa.Value) bool {
-			cv, ok := v.(*ssa.Convert)
+			cv, ok := ir.Resolve(v).(*ssa.Convert)
 			if !ok {
 				return false
 			}
@@ -172,11 +172,11 @@ func checkVerifyFrom(c *core.Ctx, fn, vmp, cpr *ssa.Function, quorum bool) {
 			if !ok || sub.Op != token.SUB || !isBest(sub.X) || !isHeight(sub.Y) {
 				return false, false
 			}
-			cv, ok := b.Y.(*ssa.Convert)
+			cv, ok := ir.Resolve(b.Y).(*ssa.Convert)
 			if !ok {
 				return false, false
 			}
-			w, ok := cv.X.(*ssa.BinOp)
+			w, ok := ir.Resolve(cv.X).(*ssa.BinOp)
 			if !ok || w.Op != token.SUB || !isFieldNamed(w.X, "BlocksToWait") {
 				return false, false
 			}
@@ -202,16 +202,7 @@ func checkVerifyFrom(c *core.Ctx, fn, vmp, cpr *ssa.Function, quorum bool) {
 		})}
 		eng.Dominates(c, "C23.canonical-header", fn, lookup, sinks, "accepting return", nil)
 	}
-	eng.Dominates(c, "C23.proof-format", fn, cmpGuard("len(StorageProofs) == 1", func(b *ssa.BinOp) (bool, bool) {
-		if b.Op != token.NEQ && b.Op != token.EQL {
-			return false, false
-		}
-		if !eng.IsLenOf(func(v ssa.Value) bool { return isFieldNamed(v, "StorageProofs") })(b.X) {
-			return false, false
-		}
-		k, ok := ir.ConstInt(b.Y)
-		return ok && k == 1, b.Op == token.EQL
-	}), sinks, "accepting return", nil)
+	dominatesEq(c, "C23.proof-format", fn, "len(StorageProofs) == 1", eng.IsLenOf(func(v ssa.Value) bool { return isFieldNamed(v, "StorageProofs") }), isConstInt(1), sinks, "accepting return")
 	vmpObj := vmp.Object()
 	var mpCall *ssa.Call
 	isMP := func(cl *ssa.Call) bool {
